@@ -22,7 +22,8 @@
 (*  spawn   go copy entries, config, layers   bpost2  BlobPut: POST upload  *)
 (*  wait1   non-blocking early-abort loop     bput    PUT (monolithic)      *)
 (*  refs    ReferrerList: API [refs2: tag]    bpatch  chunked fall-back PATCH *)
-(*  dtags   TagList once [dtags2: spawn]      bput2   chunked final PUT     *)
+(*  dtags   lock opt.mu [dtagsR: TagList      bput2   chunked final PUT     *)
+(*          once, unlock; dtags2: spawn]                                    *)
 (*  wait2   blocking wait for all children    bdel    cancel upload (best effort) *)
 (*  put     ManifestPut [fbget, fbput:                                      *)
 (*          referrerPut under muRefTag]                                     *)
@@ -68,10 +69,10 @@ CONSTANTS Confs,        \* set of configuration records (see ImageCopyMC)
           Reduce        \* TRUE: partial-order reduction for fault-free configurations (see Allowed)
 VARIABLES conf, tasks, seen, tb, tm, tt, fbl, written, tagMoved, lateWrite,
           getc, comc, nBlobReq, nManPut, nWrites, faults, ctxC, crashed,
-          refFeat, tagListed, refLock, slots, finals, ret
+          refFeat, tagListed, refLock, omu, slots, finals, ret
 vars == <<conf, tasks, seen, tb, tm, tt, fbl, written, tagMoved, lateWrite,
           getc, comc, nBlobReq, nManPut, nWrites, faults, ctxC, crashed,
-          refFeat, tagListed, refLock, slots, finals, ret>>
+          refFeat, tagListed, refLock, omu, slots, finals, ret>>
 
 \* ------------------------------------------------------------ configuration
 Sh == Shapes[conf.shape]
@@ -142,7 +143,7 @@ Init == /\ conf \in Confs
         /\ getc = [n \in Shapes[conf.shape].blobs |-> 0] /\ comc = [n \in Shapes[conf.shape].blobs |-> 0]
         /\ nBlobReq = 0 /\ nManPut = 0 /\ nWrites = 0 /\ faults = 0
         /\ ctxC = FALSE /\ crashed = FALSE /\ refFeat = "unknown" /\ tagListed = FALSE
-        /\ refLock = NoTask /\ slots = 0 /\ finals = <<>> /\ ret = ""
+        /\ refLock = NoTask /\ omu = NoTask /\ slots = 0 /\ finals = <<>> /\ ret = ""
 
 \* ---------------------------------------------------------- small operators
 ErrOf(i) == IF EffCancel(i) THEN "canceled" ELSE "other"
@@ -176,15 +177,17 @@ FinishWith(U, i, r) ==
 
 Obs == <<tb, tm, tt, fbl, written, tagMoved, lateWrite>>       \* target store and its history flags
 Cnt == <<getc, comc, nBlobReq, nManPut, nWrites>>
-Env == <<conf, ctxC, crashed, refFeat, tagListed, refLock, finals, ret>>
+Env == <<conf, ctxC, crashed, refFeat, tagListed, refLock, omu, finals, ret>>
 
 \* ------------------------------------------------------------ the seen map
 SeenEntry(n, tg) == {e \in seen : e.node = n /\ e.tag = tg}
 \* imageSeenOrWait for task i; np: where to go when i becomes the copier ("retok": nothing to do)
+\* (opt.mu is free: the one long critical section of the code is the tag listing, see MDTags)
 SeenStep(i, np, loopCheck) ==
   LET t == tasks[i]
       es == SeenEntry(t.node, t.tag)
-  IN IF es = {}
+  IN omu = NoTask /\
+     IF es = {}
      THEN IF np = "retok"
           THEN /\ tasks' = FinTasks(tasks, i, "ok")
                /\ seen' = seen \cup {[node |-> t.node, tag |-> t.tag, owner |-> i, st |-> "ok"]}
@@ -319,7 +322,7 @@ Consume(i, c) ==
                             ![i].canc = @ \/ (tasks[i].err = "none" /\ ChildErr(c) # "none")]
   /\ finals' = IF tasks[c].res = "loop" /\ tasks[c].via \in {"ref", "dtag"}
                THEN Append(finals, <<tasks[c].node, tasks[c].tag>>) ELSE finals
-  /\ UNCHANGED <<seen, slots, Obs, Cnt, conf, ctxC, crashed, refFeat, tagListed, refLock, ret, faults>>
+  /\ UNCHANGED <<seen, slots, Obs, Cnt, conf, ctxC, crashed, refFeat, tagListed, refLock, omu, ret, faults>>
 
 Wait1Go(i) ==      \* "default: done = true" (no result ready) or all children reported nil
   /\ tasks[i].pc = "wait1" /\ tasks[i].err = "none"
@@ -354,7 +357,7 @@ MRefs(i) ==
              /\ tasks' = [tasks EXCEPT ![i].pc = "refs2"]
              /\ refFeat' = (IF refFeat = "unknown" THEN "no" ELSE refFeat)
              /\ faults' = faults + Cost(i) /\ UNCHANGED <<seen, slots>>
-  /\ UNCHANGED <<Obs, Cnt, conf, ctxC, crashed, tagListed, refLock, finals, ret>>
+  /\ UNCHANGED <<Obs, Cnt, conf, ctxC, crashed, tagListed, refLock, omu, finals, ret>>
 
 MRefs2(i) ==       \* referrerListByTag: GET sha256-<hex>; not found = no referrers
   LET t == tasks[i] IN
@@ -366,16 +369,23 @@ MRefs2(i) ==       \* referrerListByTag: GET sha256-<hex>; not found = no referr
   /\ UNCHANGED <<Obs, Cnt, Env>>
 
 DTagTask(i, d) == Task("man", d[2], i, "start", d[1], FALSE, "dtag", FALSE)
+\* opt.mu is held while the tags are listed: nobody gets past imageSeenOrWait during that request
 MDTags(i) ==
   LET t == tasks[i] IN
   /\ t.pc = "dtags"
   /\ IF ~conf.dtags
-     THEN tasks' = [tasks EXCEPT ![i].pc = "wait2"] /\ UNCHANGED <<seen, slots, tagListed, faults>>
-     ELSE IF tagListed \/ SrcIsDir
-     THEN tasks' = [tasks EXCEPT ![i].pc = "dtags2"] /\ tagListed' = TRUE /\ UNCHANGED <<seen, slots, faults>>
-     ELSE \/ /\ ~EffCancel(i) /\ tasks' = [tasks EXCEPT ![i].pc = "dtags2"] /\ tagListed' = TRUE
-             /\ UNCHANGED <<seen, slots, faults>>
-          \/ /\ CanFail(i) /\ Finish(i, ErrOf(i)) /\ faults' = faults + Cost(i) /\ UNCHANGED tagListed
+     THEN tasks' = [tasks EXCEPT ![i].pc = "wait2"] /\ UNCHANGED <<tagListed, omu>>
+     ELSE /\ omu = NoTask
+          /\ IF tagListed \/ SrcIsDir
+             THEN tasks' = [tasks EXCEPT ![i].pc = "dtags2"] /\ tagListed' = TRUE /\ UNCHANGED omu
+             ELSE tasks' = [tasks EXCEPT ![i].pc = "dtagsR"] /\ omu' = i /\ UNCHANGED tagListed
+  /\ UNCHANGED <<seen, slots, faults, Obs, Cnt, conf, ctxC, crashed, refFeat, refLock, finals, ret>>
+MDTagsR(i) ==
+  /\ tasks[i].pc = "dtagsR" /\ omu = i
+  /\ \/ /\ ~EffCancel(i) /\ tasks' = [tasks EXCEPT ![i].pc = "dtags2"] /\ tagListed' = TRUE
+        /\ UNCHANGED <<seen, slots, faults>>
+     \/ /\ CanFail(i) /\ FinishWith(tasks, i, ErrOf(i)) /\ faults' = faults + Cost(i) /\ UNCHANGED tagListed
+  /\ omu' = NoTask
   /\ UNCHANGED <<Obs, Cnt, conf, ctxC, crashed, refFeat, refLock, finals, ret>>
 MDTags2(i) ==
   LET t == tasks[i]
@@ -429,7 +439,7 @@ MFbGet(i) ==       \* referrerPut: lock muRefTag, GET the fall-back tag
   /\ \/ /\ ~EffCancel(i) /\ tasks' = [tasks EXCEPT ![i].pc = "fbput"] /\ refLock' = i
         /\ UNCHANGED <<seen, slots, faults>>
      \/ /\ CanFail(i) /\ Finish(i, ErrOf(i)) /\ faults' = faults + Cost(i) /\ refLock' = NoTask
-  /\ UNCHANGED <<Obs, Cnt, conf, ctxC, crashed, refFeat, tagListed, finals, ret>>
+  /\ UNCHANGED <<Obs, Cnt, conf, ctxC, crashed, refFeat, tagListed, omu, finals, ret>>
 MFbPut(i) ==       \* PUT the updated referrers index under the fall-back tag, unlock
   LET t == tasks[i]
       s == SubjectOf(t.node)
@@ -440,7 +450,7 @@ MFbPut(i) ==       \* PUT the updated referrers index under the fall-back tag, u
            /\ Finish(i, "ok") /\ UNCHANGED <<faults, tb, tm, written, tagMoved, lateWrite, getc, comc, nBlobReq, nManPut>>
         \/ /\ CanFail(i) /\ Finish(i, ErrOf(i)) /\ faults' = faults + Cost(i) /\ UNCHANGED <<Obs, Cnt>>
      /\ refLock' = NoTask
-     /\ UNCHANGED <<conf, ctxC, crashed, refFeat, tagListed, finals, ret>>
+     /\ UNCHANGED <<conf, ctxC, crashed, refFeat, tagListed, omu, finals, ret>>
 
 \* ---------------------------------------------------------------- blob task
 BStart(i) ==
@@ -554,10 +564,10 @@ BDel(i) ==         \* blobUploadCancel, result ignored
   /\ UNCHANGED <<Obs, Env>>
 
 \* a transient fault (5xx/429, connection reset, truncated body): reghttp repeats the request
-ReqPcs == {"headT", "headT2", "headS", "headS2", "getS", "refs", "refs2", "dtags", "put", "fbget", "fbput",
+ReqPcs == {"headT", "headT2", "headS", "headS2", "getS", "refs", "refs2", "dtagsR", "put", "fbget", "fbput",
            "bhead", "bmount", "bmdel", "bget", "bpost", "bpost2", "bput", "bpatch", "bput2", "bdel"}
 \* does task i talk to a registry at its current pc (a layout side has no requests)
-OnSrcSide(pc) == pc \in {"headS", "headS2", "getS", "refs", "refs2", "dtags", "bget"}
+OnSrcSide(pc) == pc \in {"headS", "headS2", "getS", "refs", "refs2", "dtagsR", "bget"}
 IsRequest(i) ==
   LET t == tasks[i] IN
   /\ t.pc \in ReqPcs
@@ -565,7 +575,6 @@ IsRequest(i) ==
   /\ ~(t.pc = "bhead" /\ SameRepo)
   /\ ~(t.pc \in {"getS", "bget"} /\ t.inl)
   /\ ~(t.pc = "refs" /\ (~conf.referrers \/ refFeat = "no"))
-  /\ ~(t.pc = "dtags" /\ (~conf.dtags \/ tagListed))
   /\ ~(t.pc = "fbget" /\ refLock # NoTask)
 Retry(i) ==
   /\ IsRequest(i) /\ ~EffCancel(i) /\ CanFault
@@ -588,18 +597,18 @@ Return ==
      THEN /\ tasks' = Append(tasks, Task("man", finals[1][1], NoTask, "start", finals[1][2], finals[1][2] = "", "final", FALSE))
           /\ finals' = Tail(finals) /\ ret' = ""
      ELSE ret' = "ok" /\ UNCHANGED <<tasks, finals>>
-  /\ UNCHANGED <<seen, slots, Obs, Cnt, conf, ctxC, crashed, refFeat, tagListed, refLock, faults>>
+  /\ UNCHANGED <<seen, slots, Obs, Cnt, conf, ctxC, crashed, refFeat, tagListed, refLock, omu, faults>>
 
 Cancel == /\ conf.cancel /\ ~ctxC /\ ret = ""
           /\ ctxC' = TRUE
-          /\ UNCHANGED <<tasks, seen, slots, Obs, Cnt, conf, crashed, refFeat, tagListed, refLock, finals, ret, faults>>
+          /\ UNCHANGED <<tasks, seen, slots, Obs, Cnt, conf, crashed, refFeat, tagListed, refLock, omu, finals, ret, faults>>
 Crash == /\ conf.crash /\ ret = ""
          /\ crashed' = TRUE
-         /\ UNCHANGED <<tasks, seen, slots, Obs, Cnt, conf, ctxC, refFeat, tagListed, refLock, finals, ret, faults>>
+         /\ UNCHANGED <<tasks, seen, slots, Obs, Cnt, conf, ctxC, refFeat, tagListed, refLock, omu, finals, ret, faults>>
 
 Step(i) == \/ MStart(i) \/ WSeen(i) \/ MHeadT(i) \/ MHeadT2(i) \/ MHeadS(i) \/ MHeadS2(i) \/ MSeenS(i)
            \/ MGetS(i) \/ MSeenG(i) \/ MSpawn(i) \/ Wait1Go(i) \/ WaitFail(i) \/ MRefs(i) \/ MRefs2(i)
-           \/ MDTags(i) \/ MDTags2(i) \/ Wait2Done(i) \/ MPut(i) \/ MFbGet(i) \/ MFbPut(i)
+           \/ MDTags(i) \/ MDTagsR(i) \/ MDTags2(i) \/ Wait2Done(i) \/ MPut(i) \/ MFbGet(i) \/ MFbPut(i)
            \/ BStart(i) \/ BHead(i) \/ BAcq(i) \/ BMount(i) \/ BMDel(i) \/ BGet(i) \/ BPost(i) \/ BPost2(i)
            \/ BPut(i) \/ BPatch(i) \/ BPut2(i) \/ BDel(i) \/ Retry(i)
            \/ \E c \in Ids : Consume(i, c)
@@ -621,11 +630,12 @@ IsLocal(j) ==
   LET t == tasks[j] IN
   \/ t.pc \in LocalPcs
   \/ t.pc = "getS" /\ t.node \in Mans
-  \/ t.pc \in {"start", "bstart", "bhead", "headT", "headT2"} /\ t.tag = "" /\ t.via \in {"kid", "ref"} /\ Unique(t.node)
+  \/ t.pc \in {"bhead", "headT", "headT2"} /\ t.tag = "" /\ t.via \in {"kid", "ref"} /\ Unique(t.node)
+  \/ t.pc \in {"start", "bstart"} /\ t.tag = "" /\ t.via \in {"kid", "ref"} /\ Unique(t.node) /\ omu = NoTask
   \/ t.pc = "wait1" /\ t.err = "none"
   \/ t.pc = "refs" /\ (~conf.referrers \/ SrcIsDir \/ refFeat # "unknown")   \* (the first call settles refFeat)
   \/ t.pc = "refs2"
-  \/ t.pc = "dtags" /\ (~conf.dtags \/ SrcIsDir \/ tagListed)                 \* (the first call lists the tags)
+  \/ t.pc = "dtags" /\ (~conf.dtags \/ ((SrcIsDir \/ tagListed) /\ omu = NoTask))  \* (the first call lists the tags)
   \/ t.pc = "wait2" /\ \E c \in Ids : tasks[c].par = j /\ tasks[c].pc = "done" /\ ~tasks[c].got
   \/ t.pc = "wait2" /\ t.pend = 0 /\ t.err = "none" /\ (NeedPut(t) \/ (Unique(t.node) /\ t.tag = ""))
 Allowed(i) == LET A == {j \in Ids : IsLocal(j)} IN
